@@ -21,10 +21,10 @@ for d in sorted(glob.glob('/verif/seeded/C*-*m[12]')):
             'needs_to_manifest': needs,
             'confirmed_in_scratch_worktree': {'ok': ok, 'log': confirm.strip().splitlines(),
                 'procedure': 'bin/confirm_seed.sh: git worktree of /repo HEAD under /tmp, git apply patch.diff, go build ./..., full suite go test -vet=off -count=1 ./... (must pass), demo_test.go copied into its package (must fail), git checkout -- . (demo must pass); worktree removed'},
-            'checked_against': {'command': f'bin/try_seed.sh {pid} {name.split("-")[1]}  (git -C /repo apply, bin/check {pid} quick, git -C /repo checkout -- .)',
+            'checked_against': {'command': f'bin/try_seed.sh {pid} {name.split("-")[1]}{" thorough" if "thorough tier:" in detect else ""}  (git -C /repo apply, bin/check {pid} {"thorough (not reported at the quick tier)" if "thorough tier:" in detect else "quick"}, git -C /repo checkout -- .)',
                                 'detected': det, 'with_concrete_input': det and not nofail, 'reported': [v[:300] for v in vio[:4]], 'log': detect.strip().splitlines()[:12]}}
     json.dump(meta, open(f'{d}/meta.json', 'w'), indent=1)
-    rows.append((name, pid, ', '.join(files), title[:110], 'yes' if ok else 'NO', ('yes' + ('' if not nofail else ' (no concrete input)')) if det else 'NO', (vio[0][:140] if vio else '')))
+    rows.append((name, pid, ', '.join(files), title[:110], 'yes' if ok else 'NO', (('yes' if 'thorough tier:' not in detect else 'at the thorough tier') + ('' if not nofail else ' (no concrete input)')) if det else 'NO', (vio[0][:140] if vio else '')))
 with open('/verif/seeded/SUMMARY.md', 'w') as f:
     f.write('| change | files | what | confirmed | detected by `bin/check <id> quick` | first report |\n|---|---|---|---|---|---|\n')
     for r in rows:
